@@ -262,4 +262,20 @@ example : recoveredCells witnessHist2 ⟨[(1, true, 0)], [(0, 1)]⟩ =
     histOf [[⟨0, 1, [("f", "old")]⟩]] ++ fileCells witnessHist2 ⟨[(1, true, 0)], [(0, 1)]⟩ := by
   decide
 
+/-- two measurements in one batch (series 0 of measurement 0, series 100 of measurement 1): a
+flush commits one file per measurement; a crash after the first rename leaves only that file
+visible. The WAL is still complete, so the state is safe and recovery is exact; with the
+measurement-1 file alone visible *and the WAL gone* the state is not safe (rows of measurement 0
+would be missing) — such a state is not reachable: `PStep.remove` needs every file committed. -/
+def witnessHist3 : Hist :=
+  [HOp.write [⟨0, 1, [("f", "a")]⟩, ⟨100, 1, [("f", "b")]⟩], .flush].foldl Hist.step (Hist.init 1)
+
+example : safeDurable witnessHist3 ⟨[(1, true, 1)], [(0, 0)]⟩ = true ∧
+    lookup (0, 1, "f") (recoveredCells witnessHist3 ⟨[(1, true, 1)], [(0, 0)]⟩) = some "a" ∧
+    lookup (100, 1, "f") (recoveredCells witnessHist3 ⟨[(1, true, 1)], [(0, 0)]⟩) = some "b" ∧
+    fileCells witnessHist3 ⟨[(1, true, 1)], [(0, 0)]⟩ = [⟨100, 1, "f", "b"⟩] ∧
+    safeDurable witnessHist3 ⟨[(1, true, 1)], []⟩ = false ∧
+    (pendingOf witnessHist3 ⟨[], [(0, 0)]⟩).toCommit = [(true, 1), (true, 0)] := by
+  decide
+
 end OG.C01
